@@ -100,17 +100,6 @@ macro_rules! post_mint {
         prop!(model::n_events() == 1 && model::event_is(0, Mint::EVENT_ID, &ev.event_words()), concat!("C01.", $fl, ".mint.one_exact_event"));
     }};
 }
-/// the slots 0..=S_SUPPLY and the allowance slot are exactly as before (used for "refused/neutral" claims)
-fn token_slots_snapshot() -> [model::Slot; S_GATE] {
-    let mut s = [model::EMPTY_SLOT; S_GATE];
-    let mut i = 0;
-    while i < S_GATE {
-        s[i] = model::slot(i);
-        i += 1;
-    }
-    s
-}
-
 // ================================================================== 1. Pausable (library level)
 /// mirror of the (private) `stellar_contract_utils::pausable::storage::PausableStorageKey`; if the library
 /// renames it, its write lands outside the declared universe and the harness is reported inconclusive
@@ -211,6 +200,38 @@ pub mod pausable {
         prop!(lib::paused(&e) == pre, "C16.pausable.paused.reads_flag");
         witness!(which, "when_not_paused_returns");
         witness!(!which, "when_paused_returns");
+        end_checks(1);
+    }
+    // the real attribute macros of stellar_macros on local functions (both `&Env` and `Env` forms)
+    #[stellar_macros::when_not_paused]
+    fn gated_not_paused(e: &Env) -> u32 {
+        7
+    }
+    #[stellar_macros::when_paused]
+    fn gated_paused(e: Env, x: u32) -> u32 {
+        x
+    }
+    #[kani::proof]
+    #[kani::unwind(18)]
+    pub fn attribute_macros() {
+        setup_world();
+        let e = Env::default();
+        let pre = declare_paused(0);
+        let s0 = model::slot(0);
+        let which: bool = kani::any();
+        if which {
+            let r = gated_not_paused(&e);
+            prop!(!pre, "C16.pausable.attr_when_not_paused.body_unreachable_while_paused");
+            prop!(r == 7, "C16.pausable.attr_when_not_paused.body_runs_unchanged");
+        } else {
+            let x: u32 = kani::any();
+            let r = gated_paused(e.clone(), x);
+            prop!(pre, "C16.pausable.attr_when_paused.body_unreachable_while_not_paused");
+            prop!(r == x, "C16.pausable.attr_when_paused.body_runs_unchanged");
+        }
+        prop!(model::slots_equal(&model::slot(0), &s0) && model::n_events() == 0, "C16.pausable.attr.no_effect");
+        witness!(which, "attr_when_not_paused_returns");
+        witness!(!which, "attr_when_paused_returns");
         end_checks(1);
     }
     /// converse: the guards accept when the flag has the required value
